@@ -698,7 +698,8 @@ func (d *urlValuesDecoder) DecodeObject(param string, sm *openapi3.Serialization
 		return nil, false, err
 	}
 
-	found := false
+	// an object that declares no properties (a free-form map) is present once a property was decoded for it
+	found := len(schema.Value.Properties) == 0 && len(val) > 0
 	for propName := range schema.Value.Properties {
 		if _, ok := props[propName]; ok {
 			found = true
